@@ -150,7 +150,7 @@ def codec(ctx, prog, ev):
                 and call_name(n.comparators[0]) == "ord" and isinstance(n.comparators[0].args[0], ast.Constant) \
                 and isinstance(n.left, ast.Subscript) and not any(isinstance(a, ast.While) for a in _anc(n, ra.node)):
             rtags.add(n.comparators[0].args[0].value)
-    top = ra.node.body[0] if ra.node.body else None
+    top = next((x for x in ra.node.body if isinstance(x, ast.If)), None)     # the dispatch ladder is the first `if` of the body
     has_else = False
     cur = top
     while isinstance(cur, ast.If):
